@@ -59,6 +59,13 @@ pub const HOSTILE: &[&str] = &[
     "x\n]\n",
 ];
 
+/// Single special characters / sequences (for composed hostile texts).
+pub const ATOMS: &[&str] = &[
+    "'", "\"", "\\", "`", "$", "$(", ")", "${", "}", "[", "]", "(", "<", ">", ":", ",", ";", "|", "&", "#", "!", "%", "*", "?", "~", "=", "\n", "\r",
+    "\t", "\u{2018}", "\u{2019}", "\u{201a}", "\u{201b}", "\u{201c}", "\u{201d}", "\u{201e}", "\u{201f}", "\u{ab}", "\u{bb}", "\u{2032}", "--", "<#",
+    "#>", "@", "^",
+];
+
 /// Descriptive text slots, addressed by path.
 fn slots(c: &CmdSpec, prefix: &str, out: &mut Vec<String>) {
     out.push(format!("{prefix}about"));
@@ -622,7 +629,29 @@ impl Property for Text {
         let mut all = Vec::new();
         slots(&spec, "", &mut all);
         let n = t.range(1, 4);
-        let subst = (0..n).map(|_| (t.pick(&all).clone(), (*t.pick(HOSTILE)).to_owned())).collect();
+        let subst = (0..n)
+            .map(|_| {
+                let slot = t.pick(&all).clone();
+                // a listed hostile text, or one composed of 1-3 special atoms between innocuous words: every special
+                // character also occurs alone, so that no other special character can mask its handling
+                let text = if t.bool() {
+                    (*t.pick(HOSTILE)).to_owned()
+                } else {
+                    let mut s = String::new();
+                    for k in 0..t.range(1, 3) {
+                        if k > 0 || t.bool() {
+                            s.push_str(t.pick_s(&["w", "x y", "Z9"]));
+                        }
+                        s.push_str(t.pick_s(ATOMS));
+                    }
+                    if t.bool() {
+                        s.push_str("tail");
+                    }
+                    s
+                };
+                (slot, text)
+            })
+            .collect();
         TextCase { spec, bin, subst }
     }
     fn run(&self, case: &TextCase, ctx: &mut Ctx) -> Verdict {
